@@ -41,10 +41,23 @@ Proof. unfold Rleb; destruct (Rle_dec a b); split; intros; auto; try discriminat
 Lemma Reqb_true a b : Reqb a b = true <-> a = b.
 Proof. unfold Reqb; destruct (Req_EM_T a b); split; intros; auto; discriminate. Qed.
 
-(* toR: expose a goal written against (… RN) as a plain expression over R *)
+(* toR: expose a goal written against (... RN) as a plain expression over R.  Only projections applied to RN are
+   replaced; RN passed as an argument to a model function stays folded. *)
 Ltac toR :=
-  cbv beta iota delta [nadd nsub nmul ndiv nneg nabs npow npown nln nlog10 nexp nsin ncosh
-                       nsqrt npi nltb nleb neqb nmin nmax ntrunc nint nlit nsum nfail RN].
+  change (nadd RN) with Rplus; change (nsub RN) with Rminus; change (nmul RN) with Rmult; change (ndiv RN) with Rdiv;
+  change (nneg RN) with Ropp; change (nabs RN) with Rabs; change (npow RN) with Rpower; change (npown RN) with pow;
+  change (nln RN) with ln; change (nlog10 RN) with Rlog10; change (nexp RN) with exp; change (nsin RN) with sin;
+  change (ncosh RN) with cosh; change (nsqrt RN) with sqrt; change (npi RN) with PI;
+  change (nltb RN) with Rltb; change (nleb RN) with Rleb; change (neqb RN) with Reqb;
+  change (nmin RN) with Rmin; change (nmax RN) with Rmax; change (ntrunc RN) with Rtrunc; change (nint RN) with IZR;
+  change (nlit RN) with (fun n d => IZR n / IZR (Zpos d)); change (nsum RN) with Rsum; change (nfail RN) with (fun _ : nat => 0);
+  cbv beta.
 Ltac toR_in H :=
-  cbv beta iota delta [nadd nsub nmul ndiv nneg nabs npow npown nln nlog10 nexp nsin ncosh
-                       nsqrt npi nltb nleb neqb nmin nmax ntrunc nint nlit nsum nfail RN] in H.
+  change (nadd RN) with Rplus in H; change (nsub RN) with Rminus in H; change (nmul RN) with Rmult in H; change (ndiv RN) with Rdiv in H;
+  change (nneg RN) with Ropp in H; change (nabs RN) with Rabs in H; change (npow RN) with Rpower in H; change (npown RN) with pow in H;
+  change (nln RN) with ln in H; change (nlog10 RN) with Rlog10 in H; change (nexp RN) with exp in H; change (nsin RN) with sin in H;
+  change (ncosh RN) with cosh in H; change (nsqrt RN) with sqrt in H; change (npi RN) with PI in H;
+  change (nltb RN) with Rltb in H; change (nleb RN) with Rleb in H; change (neqb RN) with Reqb in H;
+  change (nmin RN) with Rmin in H; change (nmax RN) with Rmax in H; change (ntrunc RN) with Rtrunc in H; change (nint RN) with IZR in H;
+  change (nlit RN) with (fun n d => IZR n / IZR (Zpos d)) in H; change (nsum RN) with Rsum in H;
+  change (nfail RN) with (fun _ : nat => 0) in H; cbv beta in H.
